@@ -331,6 +331,7 @@ pub unsafe extern "C" fn read(fd: c_int, buf: *mut c_void, count: size_t) -> ssi
         return -1;
     }
     let c = if d.short > 0 { d.short } else { count };
+    vclock::op_cost();
     let r = r_read()(fd, buf, c);
     let e = errno();
     log(k::READ, [fd as i64, count as i64, c as i64, 0], r as i64, if r < 0 { e } else { 0 }, if d.short > 0 { 2 } else { 0 });
@@ -354,6 +355,7 @@ pub unsafe extern "C" fn write(fd: c_int, buf: *const c_void, count: size_t) -> 
         return -1;
     }
     let c = if d.short > 0 { d.short } else { count };
+    vclock::op_cost();
     let r = r_write()(fd, buf, c);
     let e = errno();
     log(k::WRITE, [fd as i64, count as i64, c as i64, 0], r as i64, if r < 0 { e } else { 0 }, if d.short > 0 { 2 } else { 0 });
@@ -393,13 +395,18 @@ pub unsafe extern "C" fn poll(fds: *mut libc::pollfd, n: libc::nfds_t, timeout: 
         let real_t = (timeout as i64).min(cap) as c_int;
         let t0 = vclock::real_ns();
         r = r_poll()(fds, n, real_t);
-        if r == 0 && (timeout as i64) > real_t as i64 {
-            let spent = (vclock::real_ns() - t0) as i64;
-            vclock::advance(timeout as i64 * 1_000_000 - spent);
+        if r == 0 {
+            if vclock::PURE.load(std::sync::atomic::Ordering::SeqCst) {
+                vclock::advance(timeout as i64 * 1_000_000);
+            } else if (timeout as i64) > real_t as i64 {
+                let spent = (vclock::real_ns() - t0) as i64;
+                vclock::advance(timeout as i64 * 1_000_000 - spent);
+            }
         }
     } else {
         r = r_poll()(fds, n, timeout);
     }
+    vclock::op_cost();
     let e = errno();
     let (pf, pr) = pack_fds(fds, n);
     log(k::POLL, [pf, timeout as i64, pr, n as i64], r as i64, if r < 0 { e } else { 0 }, 0);
@@ -796,6 +803,12 @@ fn clock_is_monotonic(id: libc::clockid_t) -> bool {
 pub unsafe extern "C" fn clock_gettime(id: libc::clockid_t, ts: *mut libc::timespec) -> c_int {
     let r = r_clock_gettime()(id, ts);
     if r == 0 && vclock::enabled() && clock_is_monotonic(id) && ilog::is_subject() {
+        if vclock::PURE.load(std::sync::atomic::Ordering::SeqCst) {
+            let t = vclock::read_and_tick();
+            (*ts).tv_sec = (t / 1_000_000_000) as _;
+            (*ts).tv_nsec = (t % 1_000_000_000) as _;
+            return r;
+        }
         let skew = vclock::SKEW.load(std::sync::atomic::Ordering::SeqCst);
         if skew != 0 {
             let total = (*ts).tv_sec as i128 * 1_000_000_000 + (*ts).tv_nsec as i128 + skew as i128;
